@@ -1196,3 +1196,81 @@ func c13ProbeHasNoSelection(ctx *core.Ctx, r *core.Report) {
 	})
 	r.Floor("guard-backing(DoGetChild selection reads)", n, 1)
 }
+
+// c08FoundPathContinuesSelection: the Path of a selection Find returns for a leaf,
+// action or notification continues the path of the selection reached so far
+// (Parent: p.Path): the parsed segments are a chain that starts at the schema node
+// of the start selection and has neither its ancestors nor its list keys.
+func c08FoundPathContinuesSelection(ctx *core.Ctx, r *core.Report) {
+	f := ctx.Method("node", "Selection", "findSlice")
+	if f == nil {
+		r.Fatalf("anchor node.Selection.findSlice not found")
+		return
+	}
+	n := 0
+	core.Instrs(f, func(_ *ssa.BasicBlock, in ssa.Instruction) {
+		st, ok := in.(*ssa.Store)
+		if !ok {
+			return
+		}
+		fa, ok := st.Addr.(*ssa.FieldAddr)
+		if !ok {
+			return
+		}
+		nn := core.NamedOf(fa.X.Type())
+		if nn == nil || nn.Obj().Name() != "Selection" || core.Deref(fa.X.Type()).Underlying().(*types.Struct).Field(fa.Field).Name() != "Path" {
+			return
+		}
+		if _, isAlloc := fa.X.(*ssa.Alloc); !isAlloc {
+			return
+		}
+		n++
+		// the stored path is a new Path literal whose Parent is a selection's Path
+		ok2 := false
+		if al, isAl := core.Strip(st.Val).(*ssa.Alloc); isAl {
+			if pst, isS := core.Deref(al.Type()).Underlying().(*types.Struct); isS {
+				if pv, has := fieldStores(al, pst)["Parent"]; has && strings.HasSuffix(paramFieldChain(pv), ".Path") {
+					ok2 = true
+				}
+			}
+		}
+		r.Ob("found-path-continues-selection", fmt.Sprintf("node.Selection.findSlice/leaf-path#%d", n), ctx.Pos(st.Pos()), ok2,
+			"the selection returned for a leaf, action or notification gets the parsed segment as its path instead of a path below the selection reached so far: taken from a start selection that is not the root, its path has lost the ancestors and list keys and no longer identifies the location")
+	})
+	r.Floor("found-path-continues-selection", n, 1)
+	// and a step that is neither a data node with children nor a leaf-like node is refused
+	refused := false
+	for _, ef := range errorfCalls(f) {
+		b := ef.Call.Block()
+		// reached where the step is not a list or container (false side) and not leaf/action/notification
+		conds := 0
+		for _, pc := range core.PathConds(b) {
+			if call, ok := pc.V.(*ssa.Call); ok && !pc.True {
+				if cal := core.StaticCallee(call); cal != nil && (cal.Name() == "IsList" || cal.Name() == "IsContainer") {
+					conds++
+				}
+			}
+		}
+		if conds >= 2 {
+			refused = true
+		}
+	}
+	r.Ob("found-path-continues-selection", "node.Selection.findSlice/non-data-step-refused", ctx.Pos(f.Pos()), refused,
+		"a path step that names a choice or a case falls through every branch of findSlice: Find answers with the parent selection and no error, as if the path had ended there")
+}
+
+// c16ExpressionWalkedOnce: resolvePath walks the steps that follow the one it is
+// given (it recurses for containers and list entries); XFind calls it once for
+// the whole expression instead of once per step.
+func c16ExpressionWalkedOnce(ctx *core.Ctx, r *core.Report) {
+	f := ctx.Method("node", "Selection", "XFind")
+	rp := ctx.Method("node", "xpathImpl", "resolvePath")
+	if f == nil || rp == nil {
+		r.Fatalf("anchors node.Selection.XFind / xpathImpl.resolvePath not found")
+		return
+	}
+	cs := callsStatic(f, rp, false)
+	ok := len(cs) == 1 && loopBlocks(cs[0].Block()) == nil
+	r.Ob("expression-walked-once", "node.Selection.XFind", ctx.Pos(f.Pos()), ok,
+		"XFind calls resolvePath for every step of the expression although resolvePath already walks the following steps itself: an expression of three or more steps is resolved twice and fails with 'not found in xpath'")
+}
